@@ -192,6 +192,25 @@ func verifWait() bool {
 
 var verifWaits atomic.Int64
 
+// verifAllocMark / verifAllocCheck bracket a call on a native replay: if more than limit bytes were
+// allocated in between, the replay aborts the way an allocation beyond the ceiling does in the
+// engine (which has its own implicit assertion and ignores these two).
+var verifAllocBase uint64
+
+func verifAllocMark() {
+	var m runtime.MemStats
+	runtime.ReadMemStats(&m)
+	verifAllocBase = m.TotalAlloc
+}
+
+func verifAllocCheck(limit int64) {
+	var m runtime.MemStats
+	runtime.ReadMemStats(&m)
+	if d := m.TotalAlloc - verifAllocBase; d > uint64(limit) {
+		panic(fmt.Sprintf("VERIF-ALLOC %d bytes allocated (limit %d)", d, limit))
+	}
+}
+
 // verifAwaitClose blocks until ch is closed (true) or the deadline (unix ms; 0: none) passes (false).
 // Natively it really waits; the engine lets everybody else run first and, when nothing else can
 // happen, fires the earliest deadline on its virtual clock.
